@@ -231,6 +231,37 @@ def unterminated(ctx, kind="req", where="trailer", L=24):
             info.update(limits={k: int(v) for k, v in lim.items()}, line_len=n, rejected=rejected)
     return f, ("reject" if rejected else "buffered"), info
 
+def long_numbers(ctx, kind="req"):
+    """numeric fields with very many digits (inside max_field_size): Content-Length, chunk size, status
+    code, version - the parser answers with messages or an HTTP protocol error, never another exception"""
+    from aiohttp import http_parser as hp
+    from aiohttp.http_exceptions import HttpProcessingError
+
+    response = kind == "resp"
+    where = ctx.pick("where", ["content-length", "chunk-size", "version", "status"] if response else
+                     ["content-length", "chunk-size", "version"])
+    ndig = ctx.pick("digits", [1, 19, 20, 39, 100, 4300, 4301, 5000, 8000])
+    digit = ctx.pick("digit", [b"9", b"1", b"0"])
+    num = digit * ndig
+    start = b"HTTP/1.1 200 OK\r\n" if response else b"POST / HTTP/1.1\r\nHost: a\r\n"
+    if where == "content-length":
+        data = start + b"Content-Length: " + num + b"\r\n\r\n"
+    elif where == "chunk-size":
+        data = start + b"Transfer-Encoding: chunked\r\n\r\n" + num + b"\r\n"
+    elif where == "version":
+        data = (b"HTTP/" + num + b".1 200 OK\r\n\r\n") if response else (b"GET / HTTP/1." + num + b"\r\nHost: a\r\n\r\n")
+    else:
+        data = b"HTTP/1.1 " + num + b" OK\r\n\r\n"
+    info = {"where": where, "digits": ndig, "digit": digit.decode(), "kind": kind}
+    cls = hp.HttpResponseParser if response else hp.HttpRequestParser
+    res = HC.run_request_parser([data], parser_cls=cls, eof=False)
+    esc = getattr(res, "escaped", None)
+    if esc is not None:
+        info["key"] = f"escape:{type(esc).__name__}@long-{where}"
+        info["detail"] = str(esc)[:120]
+        return False, "inv:long", info
+    return True, "long:" + ("reject" if res.rejected is not None else "accept"), None
+
 
 def header_count(ctx, kind="req", k=4):
     """k field lines; max_headers symbolic: more lines than max_headers are rejected"""
@@ -289,6 +320,7 @@ def jobs(tier):
             for where in ("folded-field", "folded-field-near", "folded-trailer"):
                 out.append(dict(name=f"resp-limit-{where}-32", func="near_limit",
                                 params=dict(kind="resp", where=where, L=32, ncuts=1), limits=lim))
+        out.append(dict(name=f"{kind}-long-numbers", func="long_numbers", params=dict(kind=kind), limits=lim))
         out.append(dict(name=f"{kind}-header-count", func="header_count", params=dict(kind=kind, k=3), limits=lim))
         for where in ("request-line", "field", "chunk-size", "chunk-ext", "trailer"):
             out.append(dict(name=f"{kind}-unterminated-{where}", func="unterminated",
